@@ -178,7 +178,9 @@ def run(ch, config, res):
         with ch.scope("op#%d" % i):
             last = i == nops
             k = wl.weighted("op", [5, 2, 3, 2, 1, 1, 1, 4]) if model else 0
-            if last and model:
+            if not model and i > 1 and wl.flag("restart_empty", 1, 2):
+                k = 7       # a set that has become empty (but may still name extensions) is saved and loaded too
+            if last and (model or i > 1):
                 k = 7
             op = ["add", "update", "replace", "disable", "enable", "move", "remove", "restart"][k]
             n = names[wl.int("name", len(names))]
@@ -223,6 +225,9 @@ def run(ch, config, res):
                 content = fs.getfilter(n)
                 if content is None:
                     continue
+                if wl.flag("foreign_content", 1, 5):
+                    # replacefilter takes any command: here a bare action taken from a parsed script, not an "if" rule
+                    content = E.parsed_command(["keep;\n", 'redirect "a@example.org";\n', "discard;\n"][wl.int("foreign", 3)])
                 desc = [None, gen_label(wl, "desc", 1, 14), "", gen_long_desc(wl, "longdesc")][wl.weighted("hasdesc", [1, 4, 1, 2])]
                 if desc and (name_pre.strip() in desc or desc_pre.strip() in desc):
                     desc = desc.replace("#", "h")
